@@ -1095,7 +1095,7 @@ func firstLines(s string, n int) string {
 }
 
 func runC20(c *Ctx) {
-	c.Res.Rule = "case = one pull scenario (route URL with/without credentials, camera script: one response kind per received request, SDP kind, play events + terminal event; requester = media.GetOrCreate or a real RTSP session; afterwards a later request for the same path) against a fake camera on a loopback listener, or one pair of simultaneous first requests; distinct by the scenario line; non-trivial when the camera was dialled and answered at least one request.  A disagreement is reported only if it reproduces when the scenario is re-run alone with generous time bounds"
+	c.Res.Rule = "case = one pull scenario (route URL with/without credentials, camera script: one response kind per received request, SDP kind, play events + terminal event; requester = media.GetOrCreate or a real RTSP session; afterwards a later request for the same path) against a fake camera on a loopback listener, or one pair of simultaneous first requests (held together at the GetOrCreate miss point; or both pulling, ordered by the camera's withheld PLAY answers, with consumers attached to either stream and then each pull ended in one of seven ways); distinct by the scenario line; non-trivial when the camera was dialled and answered at least one request.  A disagreement is reported only if it reproduces when the scenario is re-run alone with generous time bounds"
 	var scs []*scenario
 	for _, l := range c.CorpusLines() {
 		f := strings.Fields(l)
@@ -1235,7 +1235,7 @@ func runC20(c *Ctx) {
 	if c.Replay != "" {
 		nDual = 0
 		for _, l := range c.CorpusLines() {
-			if strings.HasPrefix(l, "c20 dual") {
+			if l == "c20 dual" || strings.HasPrefix(l, "c20 dual ") {
 				nDual = 2
 			}
 		}
@@ -1270,6 +1270,24 @@ func runC20(c *Ctx) {
 			c.Find(Finding{Kind: "oracle", Class: "concurrent-first-requests-not-one-stream", Case: caseLine, Impl: ob, Spec: dualGood, Detail: strings.Join(notes, "; ")})
 		}
 	}
+	// two simultaneous first requests that both pull, consumers attached, then every way the two pulls end
+	// (order forced by the fake camera withholding its PLAY answers: no hook, so these run in parallel)
+	var dcs []*dualScn
+	for _, l := range c.CorpusLines() {
+		f := strings.Fields(l)
+		if len(f) > 2 && f[0] == "c20" && f[1] == "dualc" {
+			if d := parseDualScn(KV(strings.Join(f[2:], " "))); validHow(d.how1) && validHow(d.how2) {
+				dcs = append(dcs, d)
+			}
+		}
+	}
+	if c.Replay == "" {
+		dcs = append(dcs, dualSystematic()...)
+		for i, n := 0, c.Budget(10, 250); i < n; i++ {
+			dcs = append(dcs, genDualScn(c.Rng))
+		}
+	}
+	runDualCs(c, dcs)
 	for i, s := range scs {
 		o := obs[i]
 		m := KV(outs[i])
